@@ -56,6 +56,15 @@ neither the revision nor the inventory of a parent living in the fallback is acc
 leaves that parent inventory not stored locally: `stackable` as the property words it is false, `stackableW` and
 readability hold (theorem srcSupplies_needed_witness is the model-level counterpart).
 
+Landing: the operation `land` makes the FALLBACK acquire what the stacked branch holds (Branch.push of the stacked
+branch onto the fallback branch, or a repository fetch of its tip into the fallback repository) — in the random
+sequences and in the fixed scenarios `landpack` (commit, merge commit, land, pack, commit) and `landburst`
+(3 commits, land, 8 commits so that autopack combines packs whose texts the fallback now also holds).  The stacked
+repository must not change, and the invariant / read / serve-alone oracles run afterwards; a later pack / autopack
+must keep every key (model: `pack` = one record per key whatever the fallback holds, theorems
+pack_independent_of_fallback, stackable_fallback_change; pack_minus_fallback_witness = the fallback-subtracting
+repack breaks the invariant after a landing).
+
 Mutants this was built against:
 """
 import hashlib
@@ -73,6 +82,7 @@ THEOREMS = [
     "srcSupplies_imp", "step_preserves_good", "run_preserves_good", "empty_good", "reachable_readable",
     "push_tip_readable", "stackable_weaken", "stackableW_readable", "fetch_into_stacked_preservesW",
     "srcSupplies_needed_witness", "refusal_multi_witness",
+    "pack_independent_of_fallback", "stackable_fallback_change", "pack_minus_fallback_witness",
 ]
 RULE = ("scenario = (seed, history, split point k, transport mode local / target over bzr:// / source over bzr://); case "
         "= one operation (fetch with or without find_ghosts / push / commit locally or over bzr:// / pack / sabotaged "
@@ -576,6 +586,43 @@ def oracle(ctx, W, case, st, fb, expect, alone=True, src=None):
             ctx.violation(case, b)
 
 
+def op_land(ctx, W, case, batch, expect, how="push"):
+    """the FALLBACK acquires what the stacked branch holds: the feature branch is landed on the trunk it is
+    stacked on (Branch.push of the stacked branch onto the fallback branch, or a repository fetch of its tip).
+    The stacked repository itself must not change; the invariant and all oracles are evaluated afterwards."""
+    from breezy.branch import Branch
+    st0, fb0, d, nb0, roots0 = enc_world(W)
+    outcome = "ok"
+    try:
+        sb = Branch.open(W.st_path)                      # with its fallback attached
+        tip = sb.last_revision()
+        if how == "push":
+            sb.push(Branch.open(W.fb_path), overwrite=True)
+        else:
+            c03.open_repo(W.fb_path).fetch(sb.repository, revision_id=tip)
+    except Exception as e:
+        _infra(e, "C08 land")
+        outcome = "E:%s:%s" % (type(e).__name__, str(e)[:160])
+    st1 = local_state(W.st_path)
+    fb1 = local_state(W.fb_path)
+    shared = set(st1["texts"]) & set(fb1["texts"])
+    landed = set(fb1["revs"]) - set(fb0["revs"])
+    ctx.count("op:land:%s" % how)
+    ctx.count("landed-revisions:%d" % min(len(landed), 8))
+    ctx.case(dict(case, n_local=len(st0["revs"]), landed=len(landed), shared_texts=len(shared)), nontrivial=bool(landed))
+    if outcome != "ok":
+        ctx.violation(case, "landing the stacked branch on its fallback failed: %s" % outcome)
+    for kind in ("revs", "invs", "texts"):
+        if set(st0[kind]) != set(st1[kind]):
+            ctx.violation(case, "landing the stacked branch on its fallback changed the %s stored in the stacked "
+                          "repository: %r" % (kind, sorted(set(st0[kind]) ^ set(st1[kind]))[:4]))
+    oracle(ctx, W, case, st1, fb1, expect, alone=bool(landed))
+    nb = c03.numbering([st1, fb1, d])
+    roots = {v[0] for s_ in (st1, fb1, d) for v in s_["roots"].values()}
+    batch.append((case, "sinv %s %s" % (enc3(st1, nb, roots), enc3(fb1, nb, roots)),
+                  "F" if stackable_direct(st1, fb1) else "T"))
+
+
 def op_pack(ctx, W, case, batch, expect, times=1):
     """Repository.pack() on the stacked repository (once or twice): no key may disappear"""
     from breezy.branch import Branch
@@ -617,7 +664,9 @@ def op_burst(ctx, W, case_of, rng, n, batch, expect, hist):
 def run_scenario(ctx, key, stop_at=None):
     """key = (seed, idx, split, mode[, kind]); kind: random | packseq (commit, commit, pack, pack) |
     burst (12 commits so that autopack combines packs) | fetchpack (fetch, pack, commit, pack) |
-    ghostsrc (fetch from a source in which the fallback's tip is a ghost, then a commit)"""
+    ghostsrc (fetch from a source in which the fallback's tip is a ghost, then a commit) |
+    landpack (commit, merge commit, LAND the stacked branch on its fallback, pack, commit) |
+    landburst (3 commits, land, 8 commits: autopack combines packs whose texts the fallback now holds too)"""
     seed, idx, split, mode = key[:4]
     kind = key[4] if len(key) > 4 else "random"
     rng = random.Random(repr(("C08", seed, idx)))
@@ -669,6 +718,20 @@ def run_scenario(ctx, key, stop_at=None):
                 op_pack(ctx, W, case_of("pack", times=1), batch, expect, 1)
             elif kind == "burst":
                 op_burst(ctx, W, case_of, rng, 12, batch, expect, revs)
+            elif kind == "landpack":
+                # commit on the stacked branch, land it on the trunk, repack the stacked repository
+                op_commit(ctx, W, case_of("commit", kind="plain"), rng, "plain", batch, expect, revs)
+                op_commit(ctx, W, case_of("commit", kind="merge-fallback"), rng, "merge-fallback", batch, expect, revs)
+                how = "push" if idx % 2 == 0 else "fetch"
+                op_land(ctx, W, case_of("land", how=how), batch, expect, how)
+                op_pack(ctx, W, case_of("pack", times=1), batch, expect, 1)
+                op_commit(ctx, W, case_of("commit", kind="plain"), rng, "plain", batch, expect, revs)
+            elif kind == "landburst":
+                # three commits, landed on the trunk, then commits until autopack combines the packs
+                for _ in range(3):
+                    op_commit(ctx, W, case_of("commit", kind="plain", burst=True), rng, "plain", batch, expect, revs)
+                op_land(ctx, W, case_of("land", how="push"), batch, expect, "push")
+                op_burst(ctx, W, case_of, rng, 8, batch, expect, revs)
             elif kind == "ghostsrc":
                 # a source in which the fallback's tip k is a GHOST: it holds one revision whose leftmost parent is k
                 # and nothing of k; it cannot supply k's inventory
@@ -727,7 +790,10 @@ def run_scenario(ctx, key, stop_at=None):
                 ckind = rng.choice(["plain", "plain", "merge-fallback", "merge-d", "merge-ghost"])
                 cvia = "remote" if (mode == "remote" and rng.random() < 0.5) else "local"
                 op_commit(ctx, W, case_of("commit", kind=ckind, via=cvia), rng, ckind, batch, expect, revs, via=cvia)
-            elif r < 0.85:
+            elif r < 0.77 and local_state(W.st_path)["revs"]:
+                how = rng.choice(["push", "fetch"])
+                op_land(ctx, W, case_of("land", how=how), batch, expect, how)
+            elif r < 0.88:
                 t_ = rng.choice([1, 1, 2])
                 op_pack(ctx, W, case_of("pack", times=t_), batch, expect, t_)
             else:
@@ -786,7 +852,7 @@ def scenario_keys(ctx):
             keys.append((ctx.seed, h, sp, ["remote", "local", "remote-src", "local"][(i + ctx.seed) % 4]))
             i += 1
     # pack / autopack sequences on the stacked repository
-    for j, kind in enumerate(["packseq", "burst", "fetchpack", "ghostsrc"] * ctx.pick(1, 3)):
+    for j, kind in enumerate(["packseq", "landburst", "fetchpack", "ghostsrc", "landpack"] * ctx.pick(1, 3)):
         keys.append((ctx.seed, 100 + j, (ctx.seed + 2 * j + 1) % 8, "local", kind))
     return keys
 
